@@ -259,14 +259,17 @@ impl<Entities> Batch<Entities> {
 /// [`vec!`]: alloc::vec!
 #[macro_export]
 macro_rules! entities {
-    (($component:expr $(,$components:expr)* $(,)?); $n:expr) => {
-        // SAFETY: Each `Vec` created here will be of length `$n`.
+    (($component:expr $(,$components:expr)* $(,)?); $n:expr) => {{
+        // The length is evaluated exactly once, so that every column gets the same length even if
+        // the expression has side effects.
+        let n: usize = $n;
+        // SAFETY: Each `Vec` created here will be of length `n`.
         unsafe {
             $crate::entities::Batch::new_unchecked(
-                ($crate::reexports::vec![$component; $n], $crate::entities!(@cloned ($($components),*); $n))
+                ($crate::reexports::vec![$component; n], $crate::entities!(@cloned ($($components),*); n))
             )
         }
-    };
+    }};
     (() $(,$rest:tt)* $(,)?) => {
         $crate::entities!(@units [()] $($rest),*)
     };
